@@ -174,6 +174,15 @@ func VerifC04_EHeights() {
 		env = newEnv(ps, lisp.WithMaxMacroExpansionDepth(lim))
 		src, cond = "(defmacro m (n) (height) (list 'm (+ n 1))) (m 0)", ""
 	}
+	if kind == 2 && vndBool("hugebound") {
+		// a bound far above the loop's length (also above 2^31) never trips: the loop completes
+		huge := []int{1 << 31, 1<<31 + 5, 1 << 32, 9223372036854775807}[vConcInt(vndChoice("huge", 4))]
+		envh := newEnv(ps, lisp.WithMaxTailIterations(huge))
+		rh := envh.LoadString("p", "(defun f (n) (if (= n 0) 'done (f (- n 1)))) (f 40)")
+		vAssert(rh.Type == lisp.LSymbol && rh.Str == "done", "a tail loop of 40 turns under a tail-iteration bound of "+itoa(huge)+" completes: "+outcome(rh))
+		vCover("huge")
+		return
+	}
 	wrapped := "(handler-bind ((condition (lambda (c &rest xs) (list 'caught c)))) (progn " + src + "))"
 	r := env.LoadString("p", wrapped)
 	vObserve("kind", kind)
@@ -224,6 +233,10 @@ func VerifC04_ECancel() {
 		"(probe 'a) (dotimes (i 6)) (probe 'z)",
 		"(defun f (n) (probe n) (if (= n 0) 'done (f (- n 1)))) (f 4)",
 		"(probe 'a) (progn (probe 'b) (probe 'c)) (probe 'd)",
+		// source loaded from INSIDE a function body runs under the same context
+		"(defun f () (load-string \"(probe 'in1) (dotimes (i 4)) (probe 'in2)\") (probe 'back)) (probe 'a) (f) (probe 'z)",
+		"(defun f () (load-bytes (to-bytes \"(probe 'in1) (probe 'in2) (probe 'in3)\"))) (let ((q 1)) (f) (probe 'z))",
+		"(defun g () (load-string \"(defun h (n) (probe n) (if (= n 0) 'done (h (- n 1)))) (h 3)\")) (defun f () (g) (probe 'back)) (f)",
 	}
 	pi := vndChoice("prog", len(progs))
 	k := vndInt("k")
@@ -391,6 +404,7 @@ func VerifC05_EClean() {
 func VerifC05_EPanic() {
 	progs := []string{
 		"(probe 'a) (boom) (probe 'b) (boom) (probe 'c)",
+		"(boom)",
 		"(defun f (n) (boom) (if (= n 0) 0 (+ 1 (f (- n 1))))) (probe 'a) (f 2) (probe 'z)",
 		"(probe 'a) (handler-bind ((condition (lambda (c &rest xs) (probe 'h) (boom) 'handled))) (boom) (error 'e 1)) (probe 'z)",
 		"(probe 'a) (ignore-errors (boom) (probe 'b)) (probe 'z)",
@@ -407,7 +421,21 @@ func VerifC05_EPanic() {
 	ps := &probeState{panicAt: k}
 	env := newEnv(ps)
 	env.LoadString("defs", "(in-package 'other) (in-package 'user)")
-	r := env.LoadString("prog", progs[pi])
+	var r *lisp.LVal
+	withctx := vndBool("withctx")
+	var cancelFn context.CancelFunc
+	if withctx {
+		var ctx context.Context
+		ctx, cancelFn = context.WithCancel(context.Background())
+		r = env.LoadStringContext(ctx, "prog", progs[pi])
+	} else {
+		r = env.LoadString("prog", progs[pi])
+	}
+	if withctx {
+		cancelFn()
+		later := env.LoadString("later", "(+ 1 2)")
+		vAssert(later.Type == lisp.LInt && later.Int == 3, "the evaluation context is restored after a recovered host panic: a later context-less evaluation is not cancelled; got "+outcome(later))
+	}
 	vObserve("prog", pi)
 	vObserve("outcome", outcome(r))
 	cleanRuntime(env, "user")
